@@ -17,7 +17,7 @@ from vf.ref import expr as rx
 LEVEL = "exploration"
 RULE = (
     "one case per (mnemonic, operand shape, size suffix, operand value, letter-case variant) rendered as a one-instruction program; "
-    "the enumeration is the full product of ISA mnemonics + live-table mnemonics x 24 shapes x {none,.b,.w,.l} x 9 boundary values x 3 case "
+    "the enumeration is the full product of ISA mnemonics + live-table mnemonics x 30 shapes x {none,.b,.w,.l} x 9 boundary values x 3 case "
     "variants, plus 6 alternative spellings (zero-padded hex, decimal, binary) of 3 values for every unsuffixed shape, 2 further origins (banks 01 and 82) x 5 operands in and out of the "
     "program bank, and operands that are symbols named like registers / size letters (disjoint shards, so distinct by construction); non-trivial = judged (accepted and compared with the ISA matrix, or a "
     "supported-set member that must be accepted); thorough adds random operand expressions hashed by program text"
@@ -58,6 +58,13 @@ SHAPES = [
     ("imm_x", "#{v},x", None),
     ("lng_inner_x", "[{v},x]", None),
     ("dir_x_y", "{v},x,y", None),
+    # opened with one kind of bracket and closed with the other: (dp) and [dp] are different modes, a mixture is neither
+    ("ind_closed_by_bracket", "({v}]", None),
+    ("ind_y_closed_by_bracket", "({v}],y", None),
+    ("x_ind_closed_by_bracket", "({v},x]", None),
+    ("s_ind_y_closed_by_bracket", "({v},s],y", None),
+    ("lng_closed_by_paren", "[{v})", None),
+    ("lng_y_closed_by_paren", "[{v}),y", None),
 ]
 SHAPE_BY_NAME = {s[0]: s for s in SHAPES}
 SUFFIXES = ["", "b", "w", "l"]
@@ -302,6 +309,20 @@ def run_enum(shard: dict, res: Res) -> None:
                 judge(res, supported, m, shape, suffix, None if isa_shape == "imp" else v, stmt, "*=0x008000\n.include 'part.s'\n",
                       key_of(m, shape, suffix, None if isa_shape == "imp" else v), True, files={"part.s": stmt + "\n"})
                 res.count("included_file_cases")
+        # blanks inside the parentheses / brackets and around the commas, with and without a size suffix
+        for shape, tpl, isa_shape in SHAPES:
+            if isa_shape is None or not ("(" in tpl or "[" in tpl or "," in tpl):
+                continue
+            for suffix in ("", "b", "w"):
+                if shape == "s_ind_y" and not suffix:
+                    continue      # (the pinned scanner reads `( v , s ) , y` with inner blanks only behind a size suffix: not claimed without one)
+                for v in (0x03, 0x1234):
+                    for k_, spaced in enumerate((tpl.replace("(", "( ").replace(")", " )").replace("[", "[ ").replace("]", " ]").replace(",", " , "),
+                                                 tpl.replace(",", ", ").replace(")", " )").replace("]", " ]"), tpl.replace("(", "(  ").replace("[", "[  "))):
+                        sfx = "." + suffix if suffix else ""
+                        stmt = f"{m}{sfx} " + spaced.replace("{v}", vtext_of(v))
+                        judge(res, supported, m, shape, suffix, v, stmt, f"*=0x008000\n{stmt}\n", key_of(m, shape, suffix, v), True)
+                        res.count("inner_blank_cases")
         # the statement is the last thing in the source: no final newline, blanks, a comment, a one-character operand
         for shape, tpl, isa_shape in SHAPES:
             if isa_shape is None:
